@@ -349,18 +349,6 @@ impl Check for C17 {
                 Err(e) => return fail("satisfier-fails-on-plan-tx", format!("get_satisfaction fails on the plan's transaction: {}", e)),
             }
         }
-        // ---- (4) sizes
-        let announced_w = plan.witness_size();
-        let announced_s = plan.scriptsig_size();
-        let segwit = !matches!(d, MDesc::Bare(_) | MDesc::Pkh(_) | MDesc::Sh(_));
-        if segwit && announced_w < wsize {
-            return fail(&format!("plan-witness-size/{}", d.kind()), format!("Plan::witness_size() = {} but the real serialized witness has {} bytes", announced_w, wsize));
-        }
-        // scriptsig_size includes the length prefix
-        let real_ss = sssize + crate::refscript::varint_len(sssize);
-        if announced_s < real_ss {
-            return fail(&format!("plan-scriptsig-size/{}", d.kind()), format!("Plan::scriptsig_size() = {} but the real scriptSig takes {} bytes (with length prefix)", announced_s, real_ss));
-        }
         // ---- (3) necessity
         let mut variants: Vec<(u32, u32, String)> = Vec::new();
         if let Some(a) = abs {
@@ -390,6 +378,18 @@ impl Check for C17 {
                     format!("the plan reports locks abs={:?} rel={:?} but its witness also validates with nLockTime={} nSequence={:#x} ({})", abs, rel, l2, s2, name),
                 );
             }
+        }
+        // ---- (4) sizes
+        let announced_w = plan.witness_size();
+        let announced_s = plan.scriptsig_size();
+        let segwit = !matches!(d, MDesc::Bare(_) | MDesc::Pkh(_) | MDesc::Sh(_));
+        if segwit && announced_w < wsize {
+            return fail(&format!("plan-witness-size/{}", d.kind()), format!("Plan::witness_size() = {} but the real serialized witness has {} bytes", announced_w, wsize));
+        }
+        // scriptsig_size includes the length prefix
+        let real_ss = sssize + crate::refscript::varint_len(sssize);
+        if announced_s < real_ss {
+            return fail(&format!("plan-scriptsig-size/{}", d.kind()), format!("Plan::scriptsig_size() = {} but the real scriptSig takes {} bytes (with length prefix)", announced_s, real_ss));
         }
         if abs.is_some() || rel.is_some() {
             rep.class("uses-lock");
